@@ -120,7 +120,7 @@ to the length of the shortest input list."
       (if (cdr things)
           (last (cdr things))
           (car things))
-      (signal (list 'kind 'wrong-argument, 'soruce 'last, 'details 'empty-list))))
+      (signal (list 'kind 'wrong-argument, 'source 'last, 'details 'empty-list))))
 
 (defun init (things)
   "Return all elements of `things` except the last one."
